@@ -195,6 +195,9 @@ class RungeKuttaIntegrator(TableauIntegrator, abc.ABC):
             self.solver_dict['rtol'] = self.rtol
             self.solver_dict['dState'] = self.dState
             timestep, redo_step = self.update_timestep()
+            if not self.is_adaptive:
+                # no error estimate: a fixed-step method keeps its step unless the stage equations fail
+                timestep, redo_step = self.dTime, False
             if self.is_implicit and not self.solver_dict.get("newton_iteration_success"):
                 redo_step = True
                 timestep = timestep * 0.8
@@ -212,6 +215,8 @@ class RungeKuttaIntegrator(TableauIntegrator, abc.ABC):
                     self.solver_dict['timestep'] = self.dTime
                     self.solver_dict['dState'] = self.dState
                     timestep, redo_step = self.update_timestep()
+                    if not self.is_adaptive:
+                        timestep, redo_step = self.dTime, False
                     if self.is_implicit and not self.solver_dict.get("newton_iteration_success"):
                         redo_step = True
                         timestep = timestep * 0.8
@@ -222,6 +227,9 @@ class RungeKuttaIntegrator(TableauIntegrator, abc.ABC):
                         "Failed to integrate system from {} to {} ".format(self.dTime, self.dTime + timestep) +
                         "to the tolerances required: rtol={}, atol={}".format(self.rtol, self.atol)
                     )
+            if not self.is_adaptive:
+                # a shortened step is not carried over: the next step is the requested one again
+                timestep = current_timestep
         
         self._requires_high_precision = False
         
